@@ -84,6 +84,14 @@ static void densityCase(Rng &rng, CaseResult &r) {
   if (tot != leg.totalCapacity()) r.fail("C16:total-capacity", std::to_string(leg.totalCapacity()) + " vs " + std::to_string(tot));
   if (tot != regArea) r.fail("C16:bins-lose-free-area", "sum over bins " + std::to_string(tot) + " free area after margins " + std::to_string(regArea));
   if (!r.viol.empty()) { r.sample = sample(); return; }
+  if (regs.empty()) {
+    // No free row space survives the side margin: the grid is the empty rectangle (0,0,0,0) with zero capacity. This
+    // degenerate situation is the recorded C06 finding; there is no placement area to tile and passes divide by its
+    // zero width, so histories are only driven on non-empty areas (the capacity oracle above has still been evaluated).
+    r.count("empty_placement_area_history_skipped");
+    r.sig = "empty-area";
+    return;
+  }
 
   leg.setParams(p);
   Rectangle a = leg.placementArea();
